@@ -79,43 +79,78 @@ static void exec_list(const std::vector<TOp> &ops, TLog &log, int rep, std::atom
 struct TArg { const std::vector<TOp> *ops; TLog log; int rep; pthread_barrier_t *bar; std::atomic<long> *val; };
 static void *thread_main(void *p) { TArg *a = (TArg *) p; pthread_barrier_wait(a->bar); exec_list(*a->ops, a->log, a->rep, a->val); return nullptr; }
 
-static std::optional<Failure> run_work(Run &R, const std::vector<uint8_t> &ent) {
+// Runs one workload in THIS process: concurrently first (three repetitions), then sequentially for the
+// reference logs — so that lazily initialised state, if any, is first touched by racing threads.
+static std::optional<Failure> run_work(Run &R, const std::vector<uint8_t> &ent, bool *nontrivial = nullptr) {
     Case cs; cs.b("ent", Bytes((const char *) ent.data(), ent.size())); g_case = cs.str();
     Src s(ent); s.expand = true; Work w = decode(s);
-    std::vector<TLog> ref(w.nthreads);
-    for (int t = 0; t < w.nthreads; t++) exec_list(w.ops[t], ref[t], 0, nullptr);
     long minval = 1 << 30;
+    std::vector<std::vector<TLog>> logs(3, std::vector<TLog>(w.nthreads));
     for (int rep = 1; rep <= 3; rep++) {
         pthread_barrier_t bar; pthread_barrier_init(&bar, nullptr, w.nthreads);
         std::vector<TArg> args(w.nthreads); std::vector<pthread_t> th(w.nthreads); std::vector<std::atomic<long>> vals(w.nthreads);
         for (int t = 0; t < w.nthreads; t++) { vals[t] = 0; args[t].ops = &w.ops[t]; args[t].rep = rep; args[t].bar = &bar; args[t].val = &vals[t]; pthread_create(&th[t], nullptr, thread_main, &args[t]); }
         for (int t = 0; t < w.nthreads; t++) pthread_join(th[t], nullptr);
         pthread_barrier_destroy(&bar);
-        for (int t = 0; t < w.nthreads; t++) {
-            R.eval(args[t].log.v.size()); minval = std::min(minval, (long) vals[t]);
-            if (args[t].log.v != ref[t].v) {
-                size_t i = 0; while (i < ref[t].v.size() && i < args[t].log.v.size() && ref[t].v[i] == args[t].log.v[i]) i++;
-                return Failure{"concurrent-differs-from-sequential", g_case, "thread " + std::to_string(t) + " of " + std::to_string(w.nthreads) + " (repetition " + std::to_string(rep) + "): outcome #" + std::to_string(i) + " differs from the sequential execution of the same call list"};
-            }
-        }
+        for (int t = 0; t < w.nthreads; t++) { R.eval(args[t].log.v.size()); minval = std::min(minval, (long) vals[t]); logs[rep - 1][t] = args[t].log; }
     }
-    if (minval >= 100) R.nontrivial(hashs(g_case));
-    R.count("workloads"); R.count("threads:" + std::to_string(w.nthreads <= 4 ? 4 : w.nthreads <= 8 ? 8 : 16) + "-or-fewer");
+    std::vector<TLog> ref(w.nthreads);
+    for (int t = 0; t < w.nthreads; t++) exec_list(w.ops[t], ref[t], 0, nullptr);
+    for (int rep = 1; rep <= 3; rep++) for (int t = 0; t < w.nthreads; t++)
+        if (logs[rep - 1][t].v != ref[t].v) {
+            size_t i = 0; while (i < ref[t].v.size() && i < logs[rep - 1][t].v.size() && ref[t].v[i] == logs[rep - 1][t].v[i]) i++;
+            return Failure{"concurrent-differs-from-sequential", g_case, "thread " + std::to_string(t) + " of " + std::to_string(w.nthreads) + " (repetition " + std::to_string(rep) + "): outcome #" + std::to_string(i) + " differs from the sequential execution of the same call list"};
+        }
+    if (nontrivial) *nontrivial = minval >= 100;
     R.sample("workload", std::to_string(w.nthreads) + " threads x ~" + std::to_string(w.ops[0].size()) + " calls, min validations per thread " + std::to_string(minval), 4);
     return std::nullopt;
+}
+
+// Each workload runs in a freshly exec'd process (this binary with --replay): the library's state has never
+// been used there, so first-use races are reachable in every workload, not only in the first one.
+// (fork() without exec is not used: a TSan report in a forked multi-threaded child can deadlock in the symbolizer.)
+#include <sys/wait.h>
+#include <spawn.h>
+#include <fcntl.h>
+extern char **environ;
+static std::string g_self, g_data;
+static std::optional<Failure> run_work_spawned(Run &R, const std::vector<uint8_t> &ent) {
+    Case cs; cs.b("ent", Bytes((const char *) ent.data(), ent.size())); g_case = cs.str();
+    std::string rep = R.a.out + "/c14-child-" + std::to_string(R.a.worker) + ".txt";
+    posix_spawn_file_actions_t fa; posix_spawn_file_actions_init(&fa);
+    posix_spawn_file_actions_addopen(&fa, 1, rep.c_str(), O_WRONLY | O_CREAT | O_TRUNC, 0644);
+    posix_spawn_file_actions_adddup2(&fa, 1, 2);
+    std::string cstr = g_case, outd = R.a.out;
+    char *argv[] = {(char *) g_self.c_str(), (char *) "--replay", (char *) cstr.c_str(), (char *) "--data", (char *) g_data.c_str(), (char *) "--out", (char *) outd.c_str(), (char *) "--stage", (char *) "child", nullptr};
+    pid_t pid; int st = 0;
+    if (posix_spawn(&pid, g_self.c_str(), &fa, nullptr, argv, environ) != 0) return Failure{"harness-error", g_case, "posix_spawn failed"};
+    posix_spawn_file_actions_destroy(&fa);
+    waitpid(pid, &st, 0);
+    Src s(ent); s.expand = true; Work w = decode(s); uint64_t calls = 0; for (auto &v : w.ops) calls += v.size();
+    R.eval(calls * 4); R.count("workloads"); R.count("threads:" + std::to_string(w.nthreads <= 4 ? 4 : w.nthreads <= 8 ? 8 : 16) + "-or-fewer");
+    std::string text, all; { std::ifstream f(rep); std::string l; int n = 0; while (std::getline(f, l)) { all += l + "\n"; if (n < 14 && (l.find("ThreadSanitizer") != std::string::npos || l.find("REPLAY-FAIL") != std::string::npos || l.find(" #") != std::string::npos || l.find("rite of size") != std::string::npos || l.find("ead of size") != std::string::npos)) { text += l + " | "; n++; } } }
+    if (WIFEXITED(st) && WEXITSTATUS(st) == 0) {
+        if (all.find("NONTRIVIAL") != std::string::npos) R.nontrivial(hashs(g_case));
+        R.sample("workload", std::to_string(w.nthreads) + " threads x ~" + std::to_string(w.ops[0].size()) + " calls each, fresh process, concurrent first", 4);
+        return std::nullopt;
+    }
+    bool race = text.find("data race") != std::string::npos;
+    return Failure{race ? "data-race" : (WIFEXITED(st) && WEXITSTATUS(st) == 3) ? "concurrent-differs-from-sequential" : "crash-in-threads", g_case,
+                   std::string(race ? "ThreadSanitizer reports a data race" : "workload failed") + " (" + std::to_string(w.nthreads) + " threads, fresh process, status " + std::to_string(WIFEXITED(st) ? WEXITSTATUS(st) : -WTERMSIG(st)) + "): " + text.substr(0, 900)};
 }
 
 static void stage_workloads(Run &R) {
     rc_run(R, "C14 concurrent validation equals sequential validation (TSan build)", 6.0, [&](Src &s) -> std::optional<Failure> {
         std::vector<uint8_t> ent(s.p, s.p + s.n);
-        return run_work(R, ent);
+        return run_work_spawned(R, ent);
     });
 }
 
 int main(int argc, char **argv) {
     return std_main(argc, argv, "C14", {{"workloads", stage_workloads}},
-        [](Run &R, const Case &c) { Bytes b = c.getb("ent"); return run_work(R, std::vector<uint8_t>(b.begin(), b.end())); }, [] { return g_case; },
+        [](Run &R, const Case &c) { Bytes b = c.getb("ent"); bool nt = false; auto f = run_work(R, std::vector<uint8_t>(b.begin(), b.end()), &nt); if (!f && nt) printf("NONTRIVIAL\n"); return f; }, [] { return g_case; },
         [](Run &R) {
+            { char buf[4096]; ssize_t n = readlink("/proc/self/exe", buf, sizeof buf - 1); if (n <= 0) return false; buf[n] = 0; g_self = buf; g_data = R.a.datadir; }
             SHARED = corpus_lines(R.a.datadir);
             for (const char *x : {"\xD0\xB8\xD0\xB2\xD0\xB0\xD0\xBD@\xD0\xBF\xD0\xBE\xD1\x87\xD1\x82\xD0\xB0.\xD1\x80\xD1\x84", "a@mailbox.localhost", "a@example.test", "x@sub.example.org", "a@b.zzunlisted", "a@[IPv6:1:2:3:4:5:6:7:8]", "a@x.abarth", "\"q q\"@x.museum"}) SHARED.push_back(x);
             if (SHARED.size() > 60000) SHARED.resize(60000);
